@@ -257,7 +257,12 @@ def _check_file(nt, tf, path, subgrids, case):
                 for form, (a1, a2) in (("int", (int(la), int(lo))), ("numpy int64", (np.int64(la), np.int64(lo))),
                                        ("numpy float64", (np.float64(la), np.float64(lo))), ("int latitude only", (int(la), float(lo)))):
                     t = tf.ntv2_2d(g, a1, a2, fwd, method)
-                    if not (abs(t[0] - ref[0]) <= 1e-12 and abs(t[1] - ref[1]) <= 1e-12):
+                    # the same position within the interpolation tolerance of the statement (1e-6"): the interpolation mixes the
+                    # float32 node values with the caller's numbers, and numpy's promotion rules make that arithmetic single
+                    # precision for Python floats and double precision for numpy scalars - both are within the statement, and
+                    # they differ by float32 rounding of the shift (1e-6" observed for a 1.1" shift), not by 1e-12 deg
+                    tol_deg = 2.0 * (1e-6 + 1e-6 * max(abs(float(ref[0]) - la), abs(float(ref[1]) - lo)) * 3600.0) / 3600.0
+                    if not (abs(t[0] - ref[0]) <= tol_deg and abs(t[1] - ref[1]) <= tol_deg):
                         raise Fail("ntv2_2d gives another position when the same whole-degree latitude / longitude are given as %s" % form,
                                    expected={"as floats": ref}, observed={"result": t, "lat": la, "lon": lo, "method": method, "forward": fwd},
                                    bucket="ntv2_2d numeric form")
